@@ -61,6 +61,7 @@ func opWrite(name string, p mq.Packet) thrOp {
 		return fmt.Sprintf("%x n=%d err=%v", b.Bytes(), n, err)
 	}}
 }
+
 // opWriteFail: the writer accepts k bytes and fails (the error path of
 // WriteTo is read-only code too).
 func opWriteFail(name string, p mq.Packet, k int) thrOp {
